@@ -34,7 +34,9 @@ RULE = ("One run = one live object of a vertex-based class (six classes; regular
         "tolerances, sort_faces, to_hoomd, inner-object mutations), with refused operations "
         "(unsatisfiable in the state, malformed points) and solver faults in the miniball-based "
         "setters as injected faults. Stratified prefix: run index i < 6*|alphabet| fixes the "
-        "first operation (quick) and i < 6*|alphabet|^2 the first two (thorough). After every "
+        "first operation (quick) and i < 6*|alphabet|^2 the first two, then every ordered triple "
+        "(thorough, as far as the budget reaches; a tenth of the thorough runs are long walks of "
+        "13-36 operations). After every "
         "step the object is compared observable by observable with a freshly constructed shape. "
         "Non-trivial = at least one step changed the geometry or was refused; distinct = distinct "
         "sha256 digests of the event log.")
@@ -120,6 +122,8 @@ def gen_spec(seed, index, tier):
         spec["steps"] = []
         return spec
     n = ops.randint(1, 8 if tier == "quick" else 12)
+    if tier == "thorough" and ops.chance(0.1):
+        n = ops.randint(13, 36)  # long random walk
     tiny = history.extent(obj) < 5e-3
     steps = history.gen_steps(ops, obj, n, malformed_rate=0.06, bad_rate=0.06, factor_decades=1.0,
                               ext_range=((1e-9, 1e-2) if tiny else
@@ -133,6 +137,14 @@ def gen_spec(seed, index, tier):
             steps.append(dict(steps[0]))
         steps[0] = _force(ops, steps[0], A[k % len(A)])
         steps[1] = _force(ops, steps[1], A[k // len(A)])
+    elif tier == "thorough" and k < len(A) ** 2 + len(A) ** 3:
+        # after every ordered pair: every ordered triple of operations
+        t = k - len(A) ** 2
+        while len(steps) < 3:
+            steps.append(dict(steps[0]))
+        for pos in range(3):
+            steps[pos] = _force(ops, steps[pos], A[t % len(A)])
+            t //= len(A)
     if base.get("scrambled"):
         steps.insert(0, {"op": "call", "name": "sort_faces", "kwargs": {}, "inner": False,
                          "pyseed": ops.u32(), "npseed": ops.u32()})
